@@ -99,9 +99,6 @@ end Monorail
 namespace Monorail
 /-! ## The oracle used on implementation output is the specification of the theorem -/
 
-theorem withinB_iff (d p : Path) : withinB d p = true ↔ Within d p := by
-  simp [withinB, Within, List.isPrefixOf_iff_prefix]
-
 theorem dependsOnB_iff (T U : Target) : dependsOnB T U = true ↔ DependsOn T U := by
   simp [dependsOnB, DependsOn, withinB_iff, List.any_eq_true]
 
